@@ -23,6 +23,7 @@ type PathSample struct {
 }
 
 type Witness struct {
+	Free   []int
 	Trail  []int
 	Model  map[string]uint64
 	Covers []string
@@ -56,6 +57,7 @@ type HarnessResult struct {
 	TimedOut     bool
 	ParamsUsed   map[string]int
 	UnwindMax    int
+	Fns          map[string]int
 }
 
 type workItem struct{ trail []int }
@@ -63,7 +65,7 @@ type workItem struct{ trail []int }
 func (g *Engine) Explore(harness string, params map[string]int, nworkers int, deadline time.Time, maxWitness int) *HarnessResult {
 	entry := g.pkg.Func(harness)
 	res := &HarnessResult{Harness: harness, Params: params, Ends: map[string]int{}, Covers: map[string]int{},
-		Asserts: map[string]int{}, Stubs: map[string]int{}, ParamsUsed: map[string]int{}}
+		Asserts: map[string]int{}, Stubs: map[string]int{}, ParamsUsed: map[string]int{}, Fns: map[string]int{}}
 	if entry == nil {
 		res.Inconclusive = append(res.Inconclusive, "harness function not found: "+harness)
 		return res
@@ -165,6 +167,9 @@ func (g *Engine) Explore(harness string, params map[string]int, nworkers int, de
 			for k, v := range e.stubs {
 				res.Stubs[k] += v
 			}
+			for f, n := range e.fnOwn {
+				res.Fns[f.String()] += n
+			}
 			if len(e.unknowns) > 0 {
 				for _, u := range e.unknowns {
 					if len(res.Unknowns) < 20 {
@@ -212,7 +217,7 @@ func (g *Engine) Explore(harness string, params map[string]int, nworkers int, de
 					for _, c := range cs {
 						coverWit[c] = true
 					}
-					res.Witnesses = append(res.Witnesses, Witness{Trail: append([]int{}, e.taken...), Model: wmodel, Covers: cs})
+					res.Witnesses = append(res.Witnesses, Witness{Trail: append([]int{}, e.taken...), Free: append([]int{}, e.freeTaken...), Model: wmodel, Covers: cs})
 				}
 			}
 			for _, w := range e.newWork {
